@@ -7,6 +7,46 @@ ENGINE = 'lean4-model+correspondence'
 
 # id -> (technique, level text, level note, design section)
 CLAIMED = {
+ 'C02': ('Lean 4 proof (kernel-decided finite table over the translated types_map; induction over add sequences; composition with the C01 theorems) + differential correspondence',
+         'Theorems: every one of the 46 RFC 5545 property names is decoded with its RFC default type (types_table, '
+         'decide +kernel over Gen.typesMap/typeRegistry, re-decided against prop.py on every run); an untyped value is '
+         'encoded by the class the parser picks; VALUE=DATE/PERIOD derivation for scalars and for uniform lists of any '
+         'length; a zoned scalar, period and single-zone list carry TZID = their zone; UTC forcing for the generated '
+         'add names; parameter merge (None deletes); values of one name accumulate in insertion order and the entry is '
+         'a list exactly when expected; a tree built by scalar add calls lies in the C01 well-formedness domain, hence '
+         'to_ical succeeds and from_ical returns the tree (api_roundtrip, relative to the decoder fixpoints of C03). '
+         'Recorded findings are decide witnesses refuting the full statements (absolute TRIGGER without VALUE, mixed-zone '
+         'list, one-element list, VALUE ignored on parse for BINARY/BOOLEAN).',
+         'Trusted: Lean kernel; tools/extract.py (cross-checked against the live tables each run); hand model of '
+         'Component._encode/add and of the value constructors tied by correspondence (every RFC name x value kind x '
+         'parameter shape through add, item assignment, setters, both providers); the RFC 5545 name/type table is the '
+         'spec side (written from the RFC); decoder fixpoints are hypotheses (C03 laws, float/base64/recur library calls).',
+         'DESIGN.md 6/C02'),
+ 'C11': ('Lean 4 proof relative to explicit provider laws + exhaustive check of the laws on every zone id x both providers + differential correspondence',
+         'Theorems for EVERY provider satisfying the stated laws (hypotheses, not axioms): a zoned date-time in one of '
+         'the provider\'s zones is written as its wall fields with TZID = zone key and reads back as the same wall time '
+         'and zone, hence the same offset; UTC is written with Z and no TZID and reads back in UTC; floating stays '
+         'floating; single-zone lists and periods (both forms) likewise; a foreign tzinfo with a listed id reads back in '
+         'the provider\'s zone of that id; DTSTAMP/CREATED/LAST-MODIFIED/ACKNOWLEDGED (generated add names) and the UTC '
+         'setters write the Z-form of the same instant. The provider laws are the tz database: checked on the '
+         'implementation for a seeded sample of ids (quick) / all ~600 ids x both providers (thorough) at every transition '
+         '-1s/0/+1s, in gaps and folds. Mixed-zone lists/periods and zoned absolute TRIGGER are decide witnesses '
+         '(recorded findings).',
+         'Trusted: Lean kernel; tools/extract.py (add names, datetime names); hand model of TZID derivation and '
+         'vDatetime.to_ical/from_ical tied by correspondence; provider laws not provable (checked); totality of the '
+         'seconds<->calendar conversion over years 1-9999 is tied by correspondence, not proved.',
+         'DESIGN.md 6/C11'),
+ 'C19': ('Lean 4 proof (composition of the C03 part codecs, C07 escaping and C17 canonsort over the translated vRecur tables) + differential correspondence + dateutil cross-check',
+         'Theorems for every rule of the stated domain: from_ical(to_ical r) = the same parts with the same typed values '
+         'in canonical order (FREQ/weekday texts upper-cased), the text is a fixpoint, FREQ comes first (after an '
+         'optional RSCALE) - via canonsort_spec over Gen.recurCanonicalOrder -, the text matches a recogniser of the RFC '
+         '5545/7529 RECUR grammar, every RFC-admissible typed value is written in its part\'s value grammar, and any '
+         'expander that is a function of the typed parts computes the same occurrences from the decoded text as from '
+         'the supplied rule. The remaining assumption (dateutil.rrulestr is such a function) is checked by comparing '
+         'rrulestr(text) with rrule(**parts). Domain-boundary behaviours (text parts holding , ; =) are witnesses.',
+         'Trusted: Lean kernel; tools/extract.py (canonical_order, types); hand model of vRecur tied by correspondence '
+         '(76 k cases quick, 1 M thorough); part codecs are the C03 models; dateutil is external.',
+         'DESIGN.md 6/C19'),
  'C01': ('Lean 4 proof (mutual structural induction over the tree; stack-machine invariants) composed from the C05/C06/C08 line theorems + differential correspondence',
          'Theorems: for every well-formed tree (upper-cased distinct property names, values that are decoder '
          'fixpoints, a list entry iff >= 2 values), running the from_ical stack machine over the serialised items '
